@@ -148,6 +148,34 @@ def main(tier: str) -> int:
             chk.fail("find_pbest_id does not return exactly the max(1, floor(p*n)) fittest, best first",
                      {"vals": vals, "p": pp, "out_len": len(out), "floor_p_n": cnt, "out": out}, {"fn": "find_pbest_id", "clause": "near_integer"})
 
+    # more individuals requested than there are positive weights (a single fit individual must be able to fill a whole parent tuple):
+    # in a child process, because a selection that cannot finish would otherwise hang the check
+    import json
+    import subprocess
+    import sys as _sys
+    code = ("import numpy as np, json\n"
+            "from thefittest.utils.selections import proportional_selection, rank_selection\n"
+            "from thefittest.utils.random import numba_seed\n"
+            "numba_seed(3)\n"
+            "w = np.array([0.0, 2.0, 0.0, 0.0])\n"
+            "r = np.array([1.0, 2.0, 3.0])\n"
+            "print('OUT ' + json.dumps([[int(x) for x in proportional_selection(w, w, np.int64(0), np.int64(3))],"
+            " [int(x) for x in rank_selection(w, w, np.int64(0), np.int64(4))], [int(x) for x in rank_selection(r, r, np.int64(0), np.int64(3))],"
+            " [int(x) for x in rank_selection(r, r, np.int64(0), np.int64(7))]]))\n")
+    chk.count("weighted_more_than_positive")
+    chk.case(("weighted_more_than_positive",))
+    try:
+        pr = subprocess.run([_sys.executable, "-c", code], capture_output=True, text=True, timeout=90)
+        line = next((l for l in pr.stdout.splitlines() if l.startswith("OUT ")), None)
+        res = json.loads(line[4:]) if line else None
+        okq = res is not None and res[0] == [1, 1, 1] and res[1] == [1, 1, 1, 1] and len(res[2]) == 3 and len(res[3]) == 7 and all(0 <= x < 3 for x in res[2] + res[3])
+        det = {"out": res, "stderr": pr.stderr[-200:]}
+    except subprocess.TimeoutExpired:
+        okq, det = False, {"out": "no result within 90 s (the call does not terminate)"}
+    if not okq:
+        chk.fail("selection does not return exactly the requested number of valid (positive-weight) population indices",
+                 {"weights": [0.0, 2.0, 0.0, 0.0], "quantities": [3, 4], "ranks": [1.0, 2.0, 3.0], "rank_quantities": [3, 7], **det}, {"fn": "proportional_selection", "clause": "quantity_more_than_positive"})
+
     # ---- C: minmax_scale
     for n in range(1, 5):
         for vals in itertools.product((-1, 0, 3), repeat=n):
@@ -218,6 +246,33 @@ def main(tier: str) -> int:
                         chk.fail("fitness/rank-proportional selection does not map the uniform draw to the index whose cumulative-weight interval contains it",
                                  {"function": fn.__name__ if hasattr(fn, "__name__") else str(fn), "weights": w, "uniform_draw": float(u), "out": idx, "expected": want, "seed": s},
                                  {"fn": "proportional_selection"})
+            # several parents at once: every one of them is drawn by its own uniform number from the same weights (the same individual
+            # may be drawn again)
+            npos = sum(1 for v in w if v > 0)
+            q = min(npos, rng.randint(2, 5))    # (more parents than positive weights: in a child process below)
+            if q >= 2:
+                numba_seed(s)
+                outq = [int(x) for x in fn(np.array(w, dtype=np.float64), np.array(w, dtype=np.float64), np.int64(0), np.int64(q))]
+                chk.count("weighted_several")
+                chk.case(("wq", tuple(w), q, tuple(outq)))
+                if not (len(outq) == q and all(0 <= x < n and w[x] > 0 for x in outq)):
+                    chk.fail("selection does not return exactly the requested number of valid (positive-weight) population indices",
+                             {"function": fn.__name__ if hasattr(fn, "__name__") else str(fn), "weights": w, "quantity": q, "out": outq, "seed": s}, {"fn": "proportional_selection", "clause": "quantity"})
+                elif mirror:
+                    rs_q = np.random.RandomState(s)
+                    cum = list(itertools.accumulate(w))
+                    want, safe = [], True
+                    while len(want) < q:
+                        uq = Fraction(float(rs_q.random_sample()))
+                        exact = uq * sum(w)
+                        if exact == 0:
+                            continue
+                        safe = safe and all(abs(float(exact) - c) > 1e-9 for c in cum)
+                        want.append(next(k for k, c in enumerate(cum) if exact <= c))
+                    if safe and outq != want:
+                        chk.fail("fitness/rank-proportional selection does not map the uniform draw to the index whose cumulative-weight interval contains it",
+                                 {"function": fn.__name__ if hasattr(fn, "__name__") else str(fn), "weights": w, "quantity": q, "out": outq, "expected": want, "seed": s,
+                                  "scenario": "several individuals requested in one call"}, {"fn": "proportional_selection", "clause": "several"})
         elif kind == 2:  # sampling without replacement
             k = rng.randint(1, n)
             numba_seed(s)
